@@ -145,6 +145,10 @@ class JSONPointer:
             return s
 
     def _getitem(self, obj: Any, key: Any) -> Any:  # noqa: PLR0912
+        if isinstance(obj, str):
+            # A string is a primitive JSON value, not an array of characters.
+            raise JSONPointerTypeError(f"{key}: can't index a string")
+
         try:
             return getitem(obj, key)
         except KeyError as err:
